@@ -255,9 +255,13 @@ def run(chk):
             chk.count((repr(node), fmt), nontrivial=nnodes >= 2)
             chk.stat(f'nodes={min(nnodes, 6)}{"+" if nnodes >= 6 else ""}')
             t = Tree(copy.deepcopy(node))
+            kept = t.node                      # the caller may still hold the old node structure (e.g. another Tree)
             try:
                 timed(t.reset_variables, fmt, seconds=2)
                 outcome = ('ok', t.node)
+                if kept != node:
+                    chk.fail('touched-other', f'reset_variables({fmt!r}) rewrote the OLD node structure in place '
+                             '(a second Tree sharing it, or a kept reference, is half-relabelled)', case)
             except Timeout:
                 chk.fail('hang', f'reset_variables({fmt!r}) did not return within 2 s', case)
                 hangs += 1
@@ -353,6 +357,7 @@ def run(chk):
         if got != exp:
             chk.mismatch('reset_variables differs', case, exp, got)
     chk.notes.append(f'phase model driver: {time.time() - t0:.1f}s')
+    cli_stream(chk)
 
 
 def norm(n):
@@ -364,6 +369,40 @@ def to_node(x):
     if isinstance(x, (list, tuple)) and len(x) == 2 and isinstance(x[1], list):
         return (x[0], [(r, to_node(t)) for r, t in x[1]])
     return x
+
+
+def cli_stream(chk):
+    """Observed at `penman --make-variables`: the tool relabels AFTER rearranging, so names follow the depth-first order of
+    the tree that is written."""
+    import penman
+    from penman import layout
+    from penman.model import Model
+    from penman.tree import Tree
+    from harness import c20
+    m = Model()
+    n = 60 if chk.tier == 'quick' else 600
+    for i in range(n):
+        node = gen.random_tree_node(chk.rng, gen.fresh_vars(), maxdepth=chk.rng.choice([2, 3]), wf=True,
+                                    roles=[':ARG1', ':ARG0', ':op2', ':op1', ':mod', ':ARG0-of', ':quant'],
+                                    atoms=['apple', 'boy', 'ant', 'bark', 'x', '7'])
+        text = penman.format(Tree(node), indent=None) + '\n'
+        for fmt in ('{prefix}{j}', 'a{i}'):
+            for key in ('canonical', 'alphanumeric'):
+                case = {'stream': 'cli', 'text': text, 'fmt': fmt, 'rearrange': key}
+                chk.count(('cli', text, fmt, key))
+                try:
+                    t = layout.configure(layout.interpret(penman.parse(text), m), model=m)
+                    layout.rearrange(t, key=getattr(m, key + '_order'))
+                    t.reset_variables(fmt)
+                    want = penman.format(t) + '\n'
+                except Exception:       # noqa
+                    continue
+                runner = c20.run_cli_subprocess if i % 30 == 0 else c20.run_cli_inprocess
+                out, code, err = runner(['--rearrange', key, '--make-variables', fmt], text, [])
+                if out != want:
+                    chk.fail('cli', 'penman --rearrange K --make-variables FMT does not name the nodes in the depth-first order of the '
+                                    'rearranged tree', dict(case, got=out, want=want))
+    chk.stat('cli-texts', n)
 
 
 def replay(obj):
